@@ -42,42 +42,45 @@ Init ==
   /\ everSnap = FALSE
   /\ hist = <<>>
 
-Log(rec) == hist' = Append(hist, rec)
+(* the history record carries what the model holds in memory after the step: the driver compares it with the *)
+(* real node's entries (persistence state, version) and explores further from a step that differs             *)
+Post == [k \in Keys |-> <<mem'[k].st, mem'[k].ver>>]
+Log(rec) == hist' = Append(hist, rec @@ [post |-> Post])
 LiveE(e) == e.st \notin {"Absent", "Deleted"}
 UpdSt(e) == IF e.st = "New" THEN "New" ELSE "Updated"
 
 Set(k, v) ==
-  /\ Log([c |-> "c1", op |-> "set", k |-> k, v |-> v])
   /\ LET e == mem[k] IN
      mem' = [mem EXCEPT ![k] = IF e.st = "Absent"
                                 THEN [st |-> "New", val |-> v, ver |-> 0, pos |-> NoPos]
                                 ELSE [e EXCEPT !.st = UpdSt(e), !.val = v, !.ver = e.ver + 1]]
   /\ UNCHANGED <<gen, recs, corrupt, snapq, persisted, everSnap>>
+  /\ Log([c |-> "c1", op |-> "set", k |-> k, v |-> v])
 
 NextNum(v) == CASE v = "1" -> "2" [] v = "2" -> "3" [] v = "3" -> "4" [] OTHER -> "5"
 
 Inc(k) ==
   /\ mem[k].st = "Absent" \/ mem[k].st = "Deleted" \/ mem[k].val \in {"1", "2", "3", "4", "5"}
-  /\ Log([c |-> "c1", op |-> "increment", k |-> k, n |-> 1])
   /\ LET e == mem[k] IN
      mem' = [mem EXCEPT ![k] =
        IF e.st = "Absent" THEN [st |-> "New", val |-> "1", ver |-> 1, pos |-> NoPos]
        ELSE IF e.st = "Deleted" THEN [e EXCEPT !.st = "Updated", !.val = "1", !.ver = e.ver + 1]
        ELSE [e EXCEPT !.st = UpdSt(e), !.ver = e.ver + 1, !.val = NextNum(e.val)]]
   /\ UNCHANGED <<gen, recs, corrupt, snapq, persisted, everSnap>>
+  /\ Log([c |-> "c1", op |-> "increment", k |-> k, n |-> 1])
 
 Remove(k) ==
-  /\ Log([c |-> "c1", op |-> "remove", k |-> k])
   /\ LET e == mem[k] IN
      mem' = [mem EXCEPT ![k] = IF e.st \in {"Absent", "New"} THEN Absent
                                 ELSE [e EXCEPT !.st = "Deleted", !.val = "<Empty>", !.ver = e.ver + 1]]
   /\ UNCHANGED <<gen, recs, corrupt, snapq, persisted, everSnap>>
+  /\ Log([c |-> "c1", op |-> "remove", k |-> k])
 
 SnapReq(reclaim) ==
   /\ snapq = "none"
-  /\ Log([c |-> "a", op |-> "snapshot", reclaim |-> reclaim])
   /\ snapq' = IF reclaim THEN "reclaim" ELSE "inc"
   /\ UNCHANGED <<mem, gen, recs, corrupt, persisted, everSnap>>
+  /\ Log([c |-> "a", op |-> "snapshot", reclaim |-> reclaim])
 
 (* order in which storage_data_disk visits the keys (a hash map: any order; fixed here) *)
 KeyOrder == CHOOSE s \in [1..Cardinality(Keys) -> Keys] : \A i, j \in DOMAIN s : i # j => s[i] # s[j]
@@ -108,7 +111,6 @@ Plan(i, m, g, rs, cor, reclaim) ==
 
 Tick ==
   /\ snapq # "none"
-  /\ Log([c |-> "-", op |-> "tick"])
   /\ LET reclaim == snapq = "reclaim"
          g == IF reclaim THEN gen + 1 ELSE gen
          r == Plan(1, mem, g, IF reclaim THEN <<>> ELSE recs, corrupt, reclaim)
@@ -116,6 +118,7 @@ Tick ==
   /\ snapq' = "none"
   /\ persisted' = [k \in Keys |-> IF LiveE(mem[k]) THEN <<mem[k].val, mem[k].ver>> ELSE None]
   /\ everSnap' = TRUE
+  /\ Log([c |-> "-", op |-> "tick"])
 
 RECURSIVE LoadFrom(_, _, _)
 LoadFrom(i, rs, acc) ==
@@ -127,9 +130,9 @@ Load == LoadFrom(1, recs, [k \in Keys |-> Absent])
 
 Restart ==
   /\ everSnap /\ ~corrupt /\ snapq = "none"
-  /\ Log([c |-> "-", op |-> "restart"])
   /\ mem' = Load
   /\ UNCHANGED <<gen, recs, corrupt, snapq, persisted, everSnap>>
+  /\ Log([c |-> "-", op |-> "restart"])
 
 Next ==
   /\ Len(hist) < MaxLen
